@@ -1,4 +1,5 @@
 from __future__ import annotations
+import re
 from typing import Any
 import secrets
 import warnings
@@ -22,6 +23,15 @@ POSSIBLE_UNSAFE_KEYS = (
 )
 
 
+# PEM armour anywhere in the text (tools write attributes or a byte order mark
+# in front of it), or a line that starts with an OpenSSH key type, including the
+# security key ("sk-...") and certificate ("...-cert-v01@openssh.com") types
+_UNSAFE_KEY_PATTERN = re.compile(
+    rb"-----BEGIN |---- BEGIN |"
+    rb"(?:^|[\r\n])[ \t]*(?:sk-)?(?:ssh-(?:rsa|dss|ed25519)|ecdsa-sha2-)[A-Za-z0-9@.\-]* "
+)
+
+
 class OctBinding(NativeKeyBinding):
     @classmethod
     def convert_raw_key_to_dict(cls, value: bytes, private: bool) -> DictKey:
@@ -36,7 +46,7 @@ class OctBinding(NativeKeyBinding):
     def import_from_bytes(cls, value: bytes, password: Any | None = None) -> bytes:
         # security check
         # key files often begin with blank lines or spaces
-        if value.lstrip().startswith(POSSIBLE_UNSAFE_KEYS):
+        if value.lstrip().startswith(POSSIBLE_UNSAFE_KEYS) or _UNSAFE_KEY_PATTERN.search(value):
             warnings.warn("This key may not be safe to import")
         return value
 
